@@ -28,7 +28,7 @@ OPS = [
 
 
 def sh(cmd, **kw):
-    return subprocess.run(cmd, shell=isinstance(cmd, str), capture_output=True, text=True, **kw)
+    return subprocess.run(cmd, shell=isinstance(cmd, str), capture_output=True, text=True, errors="replace", **kw)
 
 
 def mutants_of(path, rel):
@@ -96,6 +96,7 @@ def main():
         sh(f"make -C {wt} -j8 check", timeout=3000)          # prebuild library and tests once
         wts.put(wt)
     results = []
+    os.makedirs(os.path.join(VERIF, "out", "mutation"), exist_ok=True)
 
     def one(job):
         pid, m = job
@@ -127,6 +128,7 @@ def main():
     with ThreadPoolExecutor(max_workers=jobs) as ex:
         for r in ex.map(one, work):
             results.append(r)
+            json.dump(results, open(os.path.join(VERIF, "out", "mutation", "results.partial.json"), "w"))
             print(f"{r['pid']} {r['status']:18s} {r['m']['file']}:{r['m']['line']} {r['m']['op']}  {' '.join(r.get('sig', []))}", flush=True)
     for k in range(jobs):
         sh(["git", "-C", REPO, "worktree", "remove", "--force", os.path.join(base, f"w{k}")])
